@@ -1,5 +1,6 @@
 """C02 - the backend receives the client's request unaltered."""
 import collections
+import re
 import os
 
 from lib import common as C
@@ -61,9 +62,10 @@ class C02(Prop):
         rc, out, p, dt = C.go_test_overlay(ctx.work, "./agent/", "TestVerifC02$", OVERLAY, "c02.jsonl", ctx.seed, ctx.tier, timeout=2400, extra_env={"VERIF_SERVER_BIN": srv})
         rows = C.read_jsonl(p)
         cases = [r for r in rows if r.get("kind") == "c02"]
-        if rc != 0 or not cases:
+        crash = C.panic_excerpt(out) if rc != 0 else None
+        if (rc != 0 and not crash) or (not cases and not crash):
             raise RuntimeError("C02 harness did not run: rc=%s\n%s" % (rc, out[-2000:]))
-        return {"cases": cases, "races": [r for r in rows if r.get("kind") == "race"]}
+        return {"cases": cases, "races": [r for r in rows if r.get("kind") == "race"], "crash": crash}
 
     @staticmethod
     def _client_values(req):
@@ -84,6 +86,10 @@ class C02(Prop):
 
     def oracle(self, ctx, obs):
         res = []
+        if obs.get("crash"):
+            m = re.search(r"(panic: [^\n]*|fatal error: [^\n]*)", obs["crash"])
+            res.append(("agent-crashed", "the agent's request path (run in-process, requests forwarded concurrently) ended the process: %s" % (m.group(1) if m else "see excerpt"),
+                        {"driver": "TestVerifC02: raw client -> real proxy binary -> real agent code -> recording backend, 10 requests in flight", "output_excerpt": obs["crash"]}))
         for r in obs["cases"]:
             q, s = r["req"], r["seen"]
             rp = {"driver": "TestVerifC02: raw client -> real proxy binary -> real agent code -> recording backend", "client_request": q, "backend_saw": s,
